@@ -142,14 +142,15 @@ def bar_loop(ctx):
     t0q = p.get("token0_quote", True)
     sgn = 1 if t0q else -1
     names = [p["t0"], p["t1"], p["t2"]]
-    ticks = [sgn * GRID[k] for k in names]
+    shift = p.get("shift", 0)  # -200010 moves the grid so that the "inside" close is tick 0 exactly (a pool trading at parity)
+    ticks = [sgn * (GRID[k] + shift) for k in names]
     n = 3
-    lo_a, hi_a = sorted((sgn * LOWER, sgn * UPPER))
-    lo_b, hi_b = sorted((sgn * B_RANGE[0], sgn * B_RANGE[1]))
+    lo_a, hi_a = sorted((sgn * (LOWER + shift), sgn * (UPPER + shift)))
+    lo_b, hi_b = sorted((sgn * (B_RANGE[0] + shift), sgn * (B_RANGE[1] + shift)))
     vol0 = [ctx.int_(f"in0_{i}", 0, 10**18) for i in range(n)]
     vol1 = [ctx.int_(f"in1_{i}", 0, 10**27) for i in range(n)]
     liq = [ctx.int_(f"pool_liq_{i}", 10**6, 10**24) for i in range(n)]
-    usdc, eth = TokenInfo("USDC", 6), TokenInfo("ETH", 18)
+    usdc, eth = TokenInfo("USDC", 6), (TokenInfo("ETH", 18) if not shift else TokenInfo("USDT", 6))
     if t0q:
         pool = UniV3Pool(usdc, eth, 0.05, usdc)
     else:
@@ -163,7 +164,17 @@ def bar_loop(ctx):
     _add_statistic_column(df, pool)
     m = UniLpMarket(MarketInfo("uni"), pool, data=df)
     prices, quote = get_price_from_data(df, pool)
-    a = bars.make_actuator([m], prices, quote, {usdc: D(10**7), eth: D(10**4)})
+    markets = [m]
+    if p.get("idle_first"):
+        # another market of the same broker, registered FIRST and never written to: the bar loop's per-market refresh must still reach `m`
+        pool2 = UniV3Pool(pool.token0, pool.token1, 0.3, usdc)
+        df2 = bars.uni_frame(n, ticks=list(ticks), liquidity=[10**18] * n, in0=[0] * n, in1=[0] * n)
+        if not ctx.sym:
+            for c in ("closeTick", "openTick", "lowestTick", "highestTick"):
+                df2[c] = df2[c].astype("int64")
+        _add_statistic_column(df2, pool2)
+        markets = [UniLpMarket(MarketInfo("idle"), pool2, data=df2), m]
+    a = bars.make_actuator(markets, prices, quote, {usdc: D(10**7), eth: D(10**4)})
     amt_base = ctx.dec("a_base", D("0.001"), 1000)
     amt_quote = ctx.dec("a_quote", D("1"), 10**6)
     op1 = ctx.choose("op1", 6)
@@ -200,7 +211,7 @@ def bar_loop(ctx):
     class Script(Strategy):
         def on_bar(self, snapshot):
             i = snapshot.row_id
-            mk = self.broker.markets.default
+            mk = self.broker.markets[m.market_info]
             if i == 0:
                 mk.add_liquidity_by_tick(lo_a, hi_a, amt_base, amt_quote)
             elif i == 1 and phase1 == 0:
@@ -211,7 +222,7 @@ def bar_loop(ctx):
 
         def after_bar(self, snapshot):
             i = snapshot.row_id
-            mk = self.broker.markets.default
+            mk = self.broker.markets[m.market_info]
             rec["after"][i] = pend(mk)
             if i == 1 and phase1 == 1:
                 do_op1(mk)
@@ -276,4 +287,10 @@ def scenarios(tier):
                         nlsat=False, max_paths=400, time_budget_s=300, witness_cap=12, canary="CANARY no fee is ever earned" if (k0, k1) == ("inside", "inside") else None,
                     )
                 )
+    # a pool trading at parity: the "inside" close is tick 0 exactly (range [-30, 30), closes from {-60, -30, 0, 30, 60})
+    for k0, k1, k2 in (("inside", "above", "inside"), ("inside", "below", "on_upper"), ("on_lower", "inside", "above"), ("above", "inside", "below")):
+        out.append(Scenario(f"bars_around_tick_0/{k0}>{k1}>{k2}", bar_loop, params=dict(t0=k0, t1=k1, t2=k2, token0_quote=True, shift=-200010), shadows=SHADOWS, entry=("Actuator.run", "UniLpMarket.update", "V3CoreLib.update_fee"), nlsat=False, max_paths=400, time_budget_s=300, witness_cap=12))
+    # two markets in one broker, the idle one registered first
+    for k0, k1, k2 in (("inside", "inside", "above"), ("below", "inside", "on_upper")) + ((("inside", "on_lower", "inside"),) if tier != "quick" else ()):
+        out.append(Scenario(f"bars_idle_market_first/{k0}>{k1}>{k2}", bar_loop, params=dict(t0=k0, t1=k1, t2=k2, token0_quote=True, idle_first=True), shadows=SHADOWS, entry=("Actuator.run", "Actuator.__set_market_snapshot", "UniLpMarket.set_market_status", "UniLpMarket.update", "V3CoreLib.update_fee"), nlsat=False, max_paths=400, time_budget_s=300, witness_cap=12))
     return out
